@@ -3,11 +3,13 @@
 package config_test
 
 import (
+	"context"
 	"fmt"
 	"math/big"
 	"net"
 	"net/netip"
 	"sort"
+	"strconv"
 	"strings"
 	"testing"
 	"time"
@@ -1418,6 +1420,10 @@ func TestVerifC02(t *testing.T) {
 			first := mk("eth0")
 			dd := &c02doc{ifaces: []*c02table{first, tail}, sep: pad}
 			emitDoc(out, fmt.Sprintf("c02-volume-pad-middle-%d", k), dd, []string{"stream:volume", "volume:large-document"}, "valid interface, 1.2 MiB of comments, then a deciding stanza")
+			if k == 1 && strconv.IntSize == 64 {
+				dd18 := &c02doc{ifaces: []*c02table{mk("eth0"), mk("eth0")}, sep: strings.Repeat(pad, 15)}
+				emitDoc(out, "c02-volume-pad18-middle", dd18, []string{"stream:volume", "volume:large-document"}, "valid interface, 18 MiB of comments, then the same interface again")
+			}
 		}
 		for _, kind := range []string{"prefix", "route"} {
 			for _, n := range []int{9, 10, 17, 40} {
@@ -1441,6 +1447,24 @@ func TestVerifC02(t *testing.T) {
 				}
 			}
 		}
+	}
+	// stream "resolver": whether a debug address is acceptable is decided by the document, not by the state of the
+	// network at parse time: with a resolver whose every query times out, host names that cannot be resolved are
+	// refused exactly like with a resolver that answers "no such host"
+	if out.Wants("c02-resolver-timeout") {
+		saved := net.DefaultResolver
+		net.DefaultResolver = &net.Resolver{PreferGo: true, Dial: func(ctx context.Context, network, address string) (net.Conn, error) {
+			return nil, &net.DNSError{Err: "i/o timeout", Name: address, IsTimeout: true, IsTemporary: true}
+		}}
+		var bad []string
+		for _, addr := range []string{"metrics.corerad.invalid:9430", "locahlost:9430", "no-such-host.example.invalid:80"} {
+			text := "[[interfaces]]\nname = \"eth0\"\nmonitor = true\n\n[debug]\naddress = \"" + addr + "\"\n"
+			if _, err, pan := safeParse(text); err == nil && pan == "" {
+				bad = append(bad, fmt.Sprintf("debug address %q accepted while the resolver times out", addr))
+			}
+		}
+		net.DefaultResolver = saved
+		out.Emit(verifh.Case{ID: "c02-resolver-timeout", Input: map[string]any{"kind": "resolver-timeout"}, Tags: []string{"stream:resolver"}, ImplViolation: strings.Join(bad, "; ")})
 	}
 	emitDoc(out, "c02-empty", &c02doc{}, []string{"stream:corpus"}, "no interfaces")
 	emitDoc(out, "c02-empty-debug", &c02doc{debug: newTable().setS("address", ":9430")}, []string{"stream:corpus"}, "no interfaces, debug only")
